@@ -170,7 +170,7 @@ def o3_check(spec, leaf):
             if dm is None:
                 probs.append("reference effect undefined: no MARK in window")
                 continue
-            npop = dm + 1
+            npop = dm + 1 + (1 if sp.get("pop_below") else 0)
         else:
             npop = sp["pop"]
         if npop > len(pre):
